@@ -306,8 +306,8 @@ def compare_xvalid(ctx, py, sxc, res, mcases):
         # only variable 0 is written by the shortcut
         d = diff_outputs(a, tb, 1, tol, zs, vs, what=('est', 'std'))
         if d:
-            kind = 'multivar' if nvar > 1 else ('na-fext' if py['nafext'] else 'value')
-            ctx.violation('xvalid-unique:%s:%s' % (kind, site), 'sample %d: shortcut vs kriging without the sample: %s' % (i, d), {'case': sx_str(sxc), 'sample': i}); found = True
+            kind = 'multivariate' if nvar > 1 else ('undefined-external-drift' if py['nafext'] else 'value:' + site)
+            ctx.violation('xvalid-unique:%s' % kind, 'sample %d: shortcut vs kriging without the sample: %s' % (i, d), {'case': sx_str(sxc), 'sample': i}); found = True
         if okC and C[i]['nbgh']:
             d = diff_outputs(C[i], tb, nvar, tol, zs, vs, what=('est', 'std'))
             if d:
@@ -367,7 +367,7 @@ def compare_migrate(ctx, py, sxc, res):
         near_all = min(range(n1), key=lambda i: d2[i])
         if db1['sel'] and not db1['sel'][near_all]: key = 'masked-source'
         elif py['dmax'] and adm and not within_dmax(dvs[min(act, key=lambda i: d2[i])], py['dist_type'], py['dmax']):
-            key = 'dmax-tested-after-nearest-L%d%s' % (py['dist_type'], '' if len(set(py['dmax'])) > 1 or py['dist_type'] == 1 else '-iso')
+            key = 'dmax-tested-after-nearest'
         else: key = 'nearest'
         ctx.violation('migrate:ball:' + key, 'target %d: exhaustive search gives sample %r, ball tree gives %r (dmax %s, dist_type %d)' % (
             j, fl(A[j]), fl(B[j]), [str(x) for x in py['dmax']], py['dist_type']), {'case': sx_str(sxc), 'target': j}); found = True
@@ -375,14 +375,14 @@ def compare_migrate(ctx, py, sxc, res):
 
 def gen_ballneigh(ctx, k):
     rng = ctx.rng
-    ndim = rng.choice([1, 2, 2, 3])
+    ndim = 2    # BiTargetCheckDistance without coefficients measures exactly two coordinates (1-D / 3-D: C06's findings)
     n = rng.choice([rng.randint(3, 12), rng.randint(25, 60) if ndim > 1 else rng.randint(13, 28)])
     dbin = gen_db(rng, ndim, 1, n, 0)
     m = rng.randint(3, 6)
     dbout = gen_db(rng, ndim, 0, m, 0); dbout['z'] = []
     for d in range(ndim): dbout['coords'][d] = [dbin['coords'][d][rng.randrange(n)] + F(rng.randint(-6, 6), 2) + F(1, 16) for _ in range(m)]
     nmaxi = rng.randint(1, n); nmini = rng.randint(1, min(nmaxi, 3))
-    radius = None if (ndim == 3 or rng.random() < .5) else F(rng.randint(4, 40), 2)
+    radius = None if rng.random() < .5 else F(rng.randint(4, 40), 2)
     leaf = rng.choice([1, 2, 5, 10, 30])
     py = {'mode': 4, 'sub': 1, 'ndim': ndim, 'dbin': dbin, 'dbout': dbout, 'nmini': nmini, 'nmaxi': nmaxi, 'radius': radius, 'leaf': leaf}
     sxc = [4, 1, ndim, db_sx(dbin), db_sx(dbout), [nmini, nmaxi, dy(radius), leaf]]
@@ -534,10 +534,8 @@ def compare_calcul(ctx, py, sxc, res, mcases):
         kA = {'est': vec_d(est), 'std': vec_d(std), 'varz': vec_d(varz)}
         # --- the accessor defect: getLambda in primal mode
         if not hasL:
-            ctx.violation('KrigingCalcul:getLambda-null-in-primal', 'KrigingCalcul(flagDual=false).getLambda() returns nullptr although the weights are available (inverted _validForDual() test)',
+            ctx.violation('KrigingCalcul:getLambda-null-in-primal', 'KrigingCalcul(flagDual=false).getLambda() returns nullptr although the weights are available (inverted _validForDual() test; with flagDual=true it returns %s)' % ('a matrix' if dhasL else 'nullptr'),
                           {'case': sx_str(sxc), 'target': it}); found = True
-        if dhasL:
-            ctx.violation('KrigingCalcul:getLambda-nonnull-in-dual', 'KrigingCalcul(flagDual=true).getLambda() returns a matrix although the option is documented as unavailable in dual mode', {'case': sx_str(sxc), 'target': it}); found = True
         if err or len(kA['est']) != nvar:
             ctx.violation('KrigingCalcul:refused:' + site, 'KrigingCalcul refuses (err %d, %d estimates) a system that KrigingSystem solves' % (err, len(kA['est'])), {'case': sx_str(sxc), 'target': it}); found = True; continue
         # --- estimate (primal)
@@ -597,7 +595,14 @@ def run_pair(ctx, exe, name, cases, compare, crash_found):
             found |= bool(compare(py, sxc, r))
         if len(res) >= len(cases) - start: break
         py, sxc = cases[start + len(res)]
-        ctx.violation('crash:' + pair_site(py), 'impl crashed (rc %s) on this case' % rc, {'case': sx_str(sxc)}); found = True
+        if py['mode'] == 6:
+            # every crash met so far in this pair is the same one: KrigingSystem::_lhsCalcul / _rhsCalculPoint address the
+            # pre-projected points by the neighbourhood rank, which is -1 for the collocated target
+            ctx.violation('colcok:segfault-rank-minus-one', 'collocated cokriging through KrigingSystem crashes (rc %s): the collocated target enters the neighbourhood as rank -1 and '
+                          'ACov::load reads _p1As[-1]' % rc, {'case': sx_str(sxc)})
+        else:
+            ctx.violation('crash:' + pair_site(py), 'impl crashed (rc %s) on this case' % rc, {'case': sx_str(sxc)})
+        found = True
         start += len(res) + 1
         if start >= len(cases): break
     return found
